@@ -100,6 +100,9 @@ class Result:
 MAX_FRAMES = 255  # laythe_vm::constants::MAX_FRAME_SIZE
 
 
+STD_MODULES = {(), ("math",), ("env",), ("regexp",), ("io",), ("io", "stdio"), ("io", "fs"), ("io", "global")}
+
+
 class Interp:
     def __init__(self, files=None, main="/v/main.lay", lines=None, step_limit=200000, max_frames=MAX_FRAMES):
         self.res = Result()
@@ -551,7 +554,10 @@ class Interp:
     def exec_import(self, s, env, module_level):
         _, path, form = s  # path: list of segments e.g. ["self", "a"]; form: ("whole", alias|None) | ("syms", [(name, alias|None)])
         if path[0] == "std" and form[0] == "whole":
-            # a module of the standard library, bound to a name the program never looks into
+            # a module of the standard library, bound to a name the program never looks into; the library is what it
+            # is, a file of the project does not become part of it
+            if tuple(path[1:]) not in STD_MODULES:
+                raise self.error("ImportError", "Module %s not found" % ".".join(path))
             self.declare(env, form[1] or path[-1], LModuleObj(path[-1], {}), module_level)
             return
         if path == ["std", "regexp"] and form[0] == "syms" and all(n == "RegExp" for (n, _a) in form[1]):
